@@ -230,10 +230,10 @@ func c18JudgeReadFrom(res *engine.Result, data []byte, sr *ref.ScriptedReader, s
 			res.Failf(sig("error"), "%s: want the packet writer's error", full())
 		}
 	case rFailed:
-		// Packets completed by data handed out before the failing call must have been delivered; a
-		// packet completed only by bytes that came together with the error may or may not be (the
-		// statement promises the reader's error, not what happens to data returned with it).
-		lo := sr.PosBeforeFail / 188
+		// Every packet completed by data the reader handed out must have been delivered - also when its
+		// last bytes came together with the error: they are part of the stream (io.Reader: "process the
+		// n > 0 bytes returned before considering the error").
+		lo := sr.Pos / 188
 		if spw.Calls < lo {
 			res.Failf(sig("packet-dropped"), "%s: %d packets were complete before the reader failed", full(), lo)
 		}
@@ -524,7 +524,7 @@ func init() {
 		},
 		&engine.Enum[c18UniCase]{
 			Name: "readfrom-uniform-chunks",
-			Rule: "ReadFrom over streams of 0..3 packets + tail {0,1,187} bytes (thorough 0..4 packets, tail {0,1,94,187}) x reader that hands out exactly c bytes per call for every c in 1..377 (for c in {1..4,93..95,186..190,377} also with 1 or 2 Reads answering (0,nil) before every data Read) x EOF on a separate call / attached to the last data x injected reader error at no call and at every call (without and together with that call's data) x failing packet write at no index and every index; adapter rotates with the case in quick, all four in thorough. Oracle: deliveries == the stream's complete packets in order, byte-equal; n == 188 x successful deliveries; no fault => all complete packets delivered, ErrInvalidPacketLength iff a partial tail remains, else nil; reader error => that error, and every packet completed before the failing call delivered; writer error => that error (either one if both occurred) and no delivery after it; non-trivial = chunk < 188 and shorter than the stream (some packet is cut)",
+			Rule: "ReadFrom over streams of 0..3 packets + tail {0,1,187} bytes (thorough 0..4 packets, tail {0,1,94,187}) x reader that hands out exactly c bytes per call for every c in 1..377 (for c in {1..4,93..95,186..190,377} also with 1 or 2 Reads answering (0,nil) before every data Read) x EOF on a separate call / attached to the last data x injected reader error at no call and at every call (without and together with that call's data) x failing packet write at no index and every index; adapter rotates with the case in quick, all four in thorough. Oracle: deliveries == the stream's complete packets in order, byte-equal; n == 188 x successful deliveries; no fault => all complete packets delivered, ErrInvalidPacketLength iff a partial tail remains, else nil; reader error => that error, and every packet completed by the bytes handed out (also those that came together with the error) delivered; writer error => that error (either one if both occurred) and no delivery after it; non-trivial = chunk < 188 and shorter than the stream (some packet is cut)",
 			Gen: func(r *engine.Run, emit func(c18UniCase)) {
 				pks, tails := c18Shapes(r.Thorough())
 				for _, p := range pks {
